@@ -843,34 +843,86 @@ theorem wrapLines_ne_nil (w : Nat) (cs : List Str) (has : Bool) (cur : List Str)
 
 
 theorem textWrap_eq {w : Nat} {s : Str} {ls : List Str} (h : textWrap w s = some ls) :
-    w ≠ 0 ∧ (∀ c ∈ wrapChunks (wrapMunge s), c.length ≤ w) ∧ ls = wrapLines w (wrapChunks (wrapMunge s)) false [] 0 := by
+    w ≠ 0 ∧ ls = wrapLines w (wrapChunks (wrapMunge s)) false [] 0 := by
   unfold textWrap at h
-  simp only at h
   split at h
   · cases h
   · rename_i hc
-    simp only [Bool.or_eq_true, decide_eq_true_eq, List.any_eq_true, not_or, not_exists, not_and] at hc
-    refine ⟨hc.1, ?_, by injection h with h; exact h.symm⟩
-    intro c hcm
-    have := hc.2 c hcm
-    omega
+    exact ⟨hc, by injection h with h; exact h.symm⟩
+
+/-- a line is longer than the width only when it consists of one chunk (generic in what is known about the chunks) -/
+theorem wrapLines_length_or (w : Nat) (P : Str → Prop) (cs : List Str) (has : Bool) (cur : List Str) (n : Nat)
+    (hn : n = cur.flatten.length) (hinv : n ≤ w ∨ ∃ c, cur = [c] ∧ P c) (hcs : ∀ c ∈ cs, P c) :
+    ∀ l ∈ wrapLines w cs has cur n, l.length ≤ w ∨ (P l ∧ ¬ isBlankChunk l = true) := by
+  have hclose : ∀ l ∈ (closeLine cur).toList, l.length ≤ w ∨ (P l ∧ ¬ isBlankChunk l = true) := by
+    intro l hl
+    rcases hinv with hle | ⟨c, rfl, hP⟩
+    · have := closeLine_length cur l hl; left; omega
+    · by_cases hb : isBlankChunk c = true
+      · rw [closeLine_blank c [] hb] at hl; simp at hl
+      · rw [closeLine_nonblank c [] hb] at hl
+        simp only [Option.toList, List.mem_singleton, List.reverse_cons, List.reverse_nil, List.nil_append,
+          List.flatten_cons, List.flatten_nil, List.append_nil] at hl
+        subst hl
+        exact Or.inr ⟨hP, hb⟩
+  induction cs generalizing has cur n with
+  | nil =>
+    intro l hl
+    simp only [wrapLines] at hl
+    exact hclose l hl
+  | cons c cs ih =>
+    intro l hl
+    rw [wrapLines] at hl
+    have hPc : P c := hcs c (by simp)
+    have hcs' : ∀ c ∈ cs, P c := fun x hx => hcs x (by simp [hx])
+    by_cases hfit : n + c.length ≤ w
+    · simp only [hfit, if_true] at hl
+      refine ih has (c :: cur) (n + c.length) (by simp [hn]; omega) (Or.inl hfit) hcs' ?_ l hl
+      intro l hl
+      left
+      have := closeLine_length (c :: cur) l hl
+      simp only [List.flatten_cons, List.length_append] at this
+      omega
+    · simp only [hfit, if_false, List.mem_append] at hl
+      rcases hl with hl | hl
+      · exact hclose l hl
+      · split at hl
+        · refine ih _ [] 0 rfl (Or.inl (Nat.zero_le _)) hcs' ?_ l hl
+          intro l hl; simp [closeLine] at hl
+        · by_cases hcw : c.length ≤ w
+          · refine ih _ [c] c.length (by simp) (Or.inl hcw) hcs' ?_ l hl
+            intro l hl
+            left
+            have := closeLine_length [c] l hl
+            simp only [List.flatten_cons, List.flatten_nil, List.append_nil] at this
+            omega
+          · refine ih _ [c] c.length (by simp) (Or.inr ⟨c, rfl, hPc⟩) hcs' ?_ l hl
+            intro l hl
+            by_cases hb : isBlankChunk c = true
+            · rw [closeLine_blank c [] hb] at hl; simp at hl
+            · rw [closeLine_nonblank c [] hb] at hl
+              simp only [Option.toList, List.mem_singleton, List.reverse_cons, List.reverse_nil, List.nil_append,
+                List.flatten_cons, List.flatten_nil, List.append_nil] at hl
+              subst hl
+              exact Or.inr ⟨hPc, hb⟩
 
 theorem textWrap_tokens {w : Nat} {s : Str} {ls : List Str} (h : textWrap w s = some ls) :
     ls.flatMap tokensWs = tokensWs s := by
-  obtain ⟨_, _, rfl⟩ := textWrap_eq h
+  obtain ⟨_, rfl⟩ := textWrap_eq h
   have hok := wrapChunks_ok (wrapMunge s)
   rw [wrapLines_tokens w _ false [] 0 (by simpa using hok)]
   simp only [List.reverse_nil, List.nil_append]
   rw [← tokensWs_flatten_chunks _ hok, wrapChunks_flatten, tokensWs_wrapMunge]
 
-theorem textWrap_length {w : Nat} {s : Str} {ls : List Str} (h : textWrap w s = some ls) :
-    ∀ l ∈ ls, l.length ≤ w := by
-  obtain ⟨_, hc, rfl⟩ := textWrap_eq h
+/-- when every chunk fits, every line fits -/
+theorem textWrap_length {w : Nat} {s : Str} {ls : List Str} (h : textWrap w s = some ls)
+    (hc : ∀ c ∈ wrapChunks (wrapMunge s), c.length ≤ w) : ∀ l ∈ ls, l.length ≤ w := by
+  obtain ⟨_, rfl⟩ := textWrap_eq h
   exact wrapLines_length w _ false [] 0 rfl (Nat.zero_le _) hc
 
 theorem textWrap_ne_nil {w : Nat} {s : Str} {ls : List Str} (h : textWrap w s = some ls) :
     ∀ l ∈ ls, l ≠ [] := by
-  obtain ⟨_, _, rfl⟩ := textWrap_eq h
+  obtain ⟨_, rfl⟩ := textWrap_eq h
   exact wrapLines_ne_nil w _ false [] 0 (by simp) (wrapChunks_ok (wrapMunge s)).ne_nil
 
 
@@ -952,6 +1004,22 @@ theorem ChunksOK.homog {cs : List Str} (h : ChunksOK cs) : ∀ a ∈ cs, Homog a
     rcases List.mem_cons.mp ha with ha | ha
     · subst ha; exact h.1
     · exact ih h.2.2 a ha
+
+/-- in general: a line longer than the width is one non-blank chunk of the row, i.e. a single value, unbroken -/
+theorem textWrap_length_or {w : Nat} {s : Str} {ls : List Str} (h : textWrap w s = some ls) :
+    ∀ l ∈ ls, l.length ≤ w ∨ (l ∈ wrapChunks (wrapMunge s) ∧ ' ' ∉ l) := by
+  obtain ⟨_, rfl⟩ := textWrap_eq h
+  intro l hl
+  rcases wrapLines_length_or w (fun c => c ∈ wrapChunks (wrapMunge s)) _ false [] 0 rfl (Or.inl (Nat.zero_le _))
+      (fun c hc => hc) l hl with hle | ⟨hm, hb⟩
+  · exact Or.inl hle
+  · refine Or.inr ⟨hm, ?_⟩
+    have hh : Homog l := (wrapChunks_ok (wrapMunge s)).homog l hm
+    intro hmem
+    have hk : kindOf l = true := by
+      have := hh.2 ' ' hmem
+      simpa using this.symm
+    exact hb (hh.blank_of_kind_true hk)
 
 theorem closeLine_nonblank_line (cur : List Str) (h : ChunksOK cur.reverse) (hx : ∀ a ∈ cur, NoExotic a) :
     ∀ l ∈ (closeLine cur).toList, tokensWs l ≠ [] := by
@@ -1190,7 +1258,7 @@ theorem dwBodyLines_tokens {c : RowCfg} {null : Str} (hok : CfgOK c null) (wrap 
 
 theorem dwBodyLines_length {c : RowCfg} {null : Str} (dw : Nat)
     (rows : List (List F64)) (body : List Str) (h : dwBodyLines c null true dw rows = some body) :
-    ∀ l ∈ body, l.length ≤ dw ∧ l ≠ [] := by
+    ∀ l ∈ body, (l.length ≤ dw ∨ ' ' ∉ l) ∧ l ≠ [] := by
   induction rows generalizing body with
   | nil => simp only [dwBodyLines] at h; injection h with h; subst h; intro l hl; cases hl
   | cons r rs ih =>
@@ -1201,7 +1269,10 @@ theorem dwBodyLines_length {c : RowCfg} {null : Str} (dw : Nat)
       intro l hl
       rcases List.mem_append.mp hl with hl | hl
       · simp only [rowLines, if_true] at ha
-        exact ⟨textWrap_length ha l hl, textWrap_ne_nil ha l hl⟩
+        refine ⟨?_, textWrap_ne_nil ha l hl⟩
+        rcases textWrap_length_or ha l hl with h1 | h2
+        · exact Or.inl h1
+        · exact Or.inr h2.2
       · exact ih b hb l hl
     · cases h
 
